@@ -11,6 +11,7 @@ import (
 	"sort"
 	"strings"
 	"syscall"
+	"unsafe"
 )
 
 // snapshot returns the canonical recursive state of everything the guest must not change.
@@ -183,8 +184,11 @@ func (w *world) fingerprint() []byte {
 	}
 	buf := w.fpBuf[:0]
 	var st syscall.Stat_t
-	for _, rel := range w.known {
-		if err := syscall.Lstat(rel, &st); err != nil {
+	for i := range w.known {
+		// lstat relative to an O_PATH descriptor of the containing directory taken at baseline time
+		// (one path component instead of five; raw syscall: fstatat on a local fs does not block)
+		if _, _, e := syscall.RawSyscall6(syscall.SYS_NEWFSTATAT, uintptr(w.knownDir[i]), uintptr(unsafe.Pointer(w.knownName[i])),
+			uintptr(unsafe.Pointer(&st)), atSymlinkNofollow, 0, 0); e != 0 {
 			buf = append(buf, 0xff)
 			continue
 		}
@@ -204,6 +208,43 @@ func (w *world) fingerprint() []byte {
 	}
 	w.fpBuf = buf
 	return buf
+}
+
+const (
+	atSymlinkNofollow = 0x100
+	oPath             = 0x200000
+)
+
+// indexKnown opens an O_PATH descriptor for every directory that contains a known entry and records
+// (dirfd, name) for each entry. A directory that is later removed or replaced keeps its old descriptor:
+// its entries then answer ENOENT / stale data and the parent's own mtime has changed — both differ from
+// the baseline fingerprint.
+func (w *world) indexKnown() {
+	w.closeDirFDs()
+	dirs := map[string]int{}
+	w.knownDir, w.knownName = w.knownDir[:0], w.knownName[:0]
+	for _, p := range w.known {
+		d := filepath.Dir(p)
+		fd, ok := dirs[d]
+		if !ok {
+			var err error
+			fd, err = syscall.Open(d, oPath|syscall.O_DIRECTORY|syscall.O_CLOEXEC, 0)
+			must(err)
+			dirs[d] = fd
+			w.dirFDs = append(w.dirFDs, fd)
+		}
+		n, err := syscall.BytePtrFromString(filepath.Base(p))
+		must(err)
+		w.knownDir = append(w.knownDir, fd)
+		w.knownName = append(w.knownName, n)
+	}
+}
+
+func (w *world) closeDirFDs() {
+	for _, fd := range w.dirFDs {
+		syscall.Close(fd)
+	}
+	w.dirFDs = w.dirFDs[:0]
 }
 
 // knownPaths lists the absolute paths of every entry in a full snapshot.
